@@ -809,6 +809,96 @@ func classify(c *C13Case) (classes []string, nontrivial bool) {
 		}
 		scalar("unified", true, repl)
 	}
+	// literal dash-named keys in families without removal markers
+	literalDash := func(fam string, adjKeys, specKeys []string) {
+		inAdj, inSpec := map[string]bool{}, map[string]bool{}
+		for _, k := range adjKeys {
+			inAdj[k] = true
+		}
+		for _, k := range specKeys {
+			inSpec[k] = true
+		}
+		dash, pair, sib := false, false, false
+		for _, k := range adjKeys {
+			if !strings.HasPrefix(k, "-") {
+				continue
+			}
+			dash = true
+			for _, sk := range []string{k[1:], strings.TrimLeft(k, "-")} {
+				if sk != "" && inAdj[sk] {
+					pair = true
+				}
+				if sk != "" && inSpec[sk] {
+					sib = true
+				}
+			}
+		}
+		if dash {
+			add(fam + ":literal_dash_key")
+		}
+		if pair {
+			add(fam + ":literal_dash_key_and_sibling_in_adjustment")
+		}
+		if sib {
+			add(fam + ":literal_dash_key_sibling_in_spec")
+		}
+	}
+	{
+		var ak, sk []string
+		for k := range a.Unified {
+			ak = append(ak, k)
+		}
+		for k := range r.Unified {
+			sk = append(sk, k)
+		}
+		sort.Strings(ak)
+		literalDash("unified", ak, sk)
+		ak, sk = nil, nil
+		for _, h := range a.Hugepages {
+			ak = append(ak, h.PageSize)
+		}
+		for _, h := range r.HugepageLimits {
+			sk = append(sk, h.Pagesize)
+		}
+		literalDash("hugepages", ak, sk)
+		ak, sk = nil, nil
+		for _, l := range a.Rlimits {
+			ak = append(ak, l.Type)
+		}
+		for _, l := range s.Process.Rlimits {
+			sk = append(sk, l.Type)
+		}
+		literalDash("rlimits", ak, sk)
+		literalDash("cdi", a.CDI, nil)
+		// values and other plain strings
+		var vals []string
+		for k, v := range a.Annotations {
+			if _, rm := marked(k); !rm {
+				vals = append(vals, v)
+			}
+		}
+		for _, e := range a.Env {
+			if _, rm := marked(e.K); !rm {
+				vals = append(vals, e.V)
+			}
+		}
+		for _, m := range a.Mounts {
+			vals = append(vals, m.Options...)
+		}
+		if h := a.Hooks; h != nil {
+			for _, l := range [][]AdjHook{h.Prestart, h.CreateRuntime, h.CreateContainer, h.StartContainer, h.Poststart, h.Poststop} {
+				for _, x := range l {
+					vals = append(vals, x.Path)
+				}
+			}
+		}
+		for _, v := range vals {
+			if strings.HasPrefix(v, "-") {
+				add("values:literal_dash_value")
+				break
+			}
+		}
+	}
 	scalar("pids", a.Pids != nil, r.Pids != nil)
 	scalar("cgroups_path", a.CgroupsPath != "", s.Linux.CgroupsPath != "")
 	scalar("oom_score_adj", a.OomScoreAdj != nil, s.Process.OOMScoreAdj != nil)
@@ -1013,6 +1103,17 @@ func TestExh_C13(t *testing.T) {
 			n++
 		}
 	}
+	// families without removal markers: dash-named keys and values are ordinary
+	for i := range literalDashSweep() {
+		c := literalDashSweep()[i]
+		o := runC13(c)
+		o.Classes = append([]string{"sweep"}, o.Classes...)
+		r.Record(c, o)
+		if o.Fail != "" {
+			t.Fatalf("C13: %s", o.Fail)
+		}
+		n++
+	}
 	r.SetExtra("sweep_cases", n)
 	r.SetExtra("exhaustive", false)
 }
@@ -1118,4 +1219,55 @@ func dashSweepCase(fam string, i int) C13Case {
 		}
 	}
 	return C13Case{Spec: s, Adj: a, Reps: 32}
+}
+
+// literalDashSweep: directed cases for the families that have no removal-marker semantics:
+// "-k" is an ordinary key (or value); it is set literally and leaves its sibling "k" alone.
+func literalDashSweep() []C13Case {
+	base := func() rspec.Spec {
+		return rspec.Spec{Version: "1.1.0", Process: &rspec.Process{Cwd: "/", Env: []string{"HOME=/"}}, Linux: &rspec.Linux{}}
+	}
+	withUnified := func(u map[string]string) rspec.Spec {
+		s := base()
+		s.Linux.Resources = &rspec.LinuxResources{Unified: u}
+		return s
+	}
+	var out []C13Case
+	// unified: the pair in one adjustment (many applications: a map is iterated)
+	out = append(out, C13Case{Spec: base(), Adj: Adj{Unified: map[string]string{"-memory.high": "", "memory.high": "2000"}}, Reps: 200})
+	out = append(out, C13Case{Spec: withUnified(map[string]string{"memory.high": "max"}), Adj: Adj{Unified: map[string]string{"-memory.high": "", "memory.high": "2000"}}, Reps: 200})
+	// unified: "-k" in the adjustment while "k" is in the spec (which must stay)
+	out = append(out, C13Case{Spec: withUnified(map[string]string{"memory.high": "max", "cpu.weight": "100"}), Adj: Adj{Unified: map[string]string{"-memory.high": "5", "-": "x"}}, Reps: 32})
+	// unified: "-k" and "k" in the spec, the adjustment sets "k"
+	out = append(out, C13Case{Spec: withUnified(map[string]string{"-memory.high": "1", "memory.high": "max"}), Adj: Adj{Unified: map[string]string{"memory.high": "7"}}, Reps: 32})
+	// hugepage sizes and rlimit types
+	s := base()
+	s.Linux.Resources = &rspec.LinuxResources{HugepageLimits: []rspec.LinuxHugepageLimit{{Pagesize: "2MB", Limit: 9}}}
+	s.Process.Rlimits = []rspec.POSIXRlimit{{Type: "RLIMIT_NOFILE", Hard: 10, Soft: 5}}
+	out = append(out, C13Case{Spec: s, Reps: 32, Adj: Adj{
+		Hugepages: []AdjHuge{{PageSize: "-2MB", Limit: 1}},
+		Rlimits:   []AdjRlimit{{Type: "-RLIMIT_NOFILE", Hard: 7, Soft: 3}},
+	}})
+	s = base()
+	s.Linux.Resources = &rspec.LinuxResources{HugepageLimits: []rspec.LinuxHugepageLimit{{Pagesize: "2MB", Limit: 9}}}
+	out = append(out, C13Case{Spec: s, Reps: 32, Adj: Adj{
+		Hugepages: []AdjHuge{{PageSize: "-2MB", Limit: 1}, {PageSize: "2MB", Limit: 2}},
+		Rlimits:   []AdjRlimit{{Type: "-RLIMIT_NOFILE", Hard: 7, Soft: 3}, {Type: "RLIMIT_NOFILE", Hard: 8, Soft: 4}},
+	}})
+	// values, CDI names, hook paths and args, mount options, args, class names, cgroups path
+	s = base()
+	s.Annotations = map[string]string{"k1": "old"}
+	bio, rdt := "-gold", "-gold"
+	out = append(out, C13Case{Spec: s, Reps: 32, Adj: Adj{
+		Annotations:  map[string]string{"k1": "-v1", "k2": "-"},
+		Env:          []KV{{K: "E1", V: "-v"}, {K: "HOME", V: "--w"}},
+		Mounts:       []AdjMount{{Dest: "/a", Type: "bind", Source: "/src/a", Options: []string{"-ro", "ro"}}},
+		Args:         []string{"-x", "--", "-"},
+		Hooks:        &AdjHooks{Prestart: []AdjHook{{Path: "-/bin/h1", Args: []string{"-h", "-v"}, Env: []string{"-A=1"}}, {Path: "/bin/h1"}}},
+		CDI:          []string{"-vendor.com/gpu=0", "vendor.com/gpu=0"},
+		CgroupsPath:  "-kubepods/x",
+		BlockIOClass: &bio,
+		RdtClass:     &rdt,
+	}})
+	return out
 }
